@@ -6,5 +6,7 @@ MCShapesQuick == {<<5>>, <<3, 3>>, <<4, 3>>, <<3, 2, 3>>, <<2, 3, 2, 2>>}
 MCStart == {Pattern(sh, s) : sh \in MCShapes, s \in 0..3}
 MCStartQuick == {Pattern(sh, s) : sh \in MCShapesQuick, s \in 0..1}
 MCScale == {QMk(1, 3), QI(2), QI(1000), QMk(1, 10000)}   \* the last one brings every total below one
-MCMono == {<<QI(0), QI(5)>>, <<QI(9), QMk(1, 2)>>}
+\* the last pair is sixteen orders of magnitude above the polymorphic entries: anything computed as
+\* "total minus the monomorphic cells" would lose the polymorphic part to rounding
+MCMono == {<<QI(0), QI(5)>>, <<QI(9), QMk(1, 2)>>, <<QPow(QI(10), 16), QMul(QI(3), QPow(QI(10), 15))>>}
 =============================================================================
